@@ -367,7 +367,15 @@ fn gen_kernel_cases(k: &mut KRun, thorough: bool) {
                 }),
                 format!("{} % {}", sa, sb),
             );
-            k.add(format!("remasg {} {}", a, b), script_outcome(&format!("x = {}\nx %= {}\nx", sa, sb), |v| as_i64(v).unwrap_or(-777).to_string()), format!("x = {}; x %= {}", sa, sb));
+            k.add(
+                format!("remasg {} {}", a, b),
+                script_outcome(&format!("x = {}\nx %= {}\nx", sa, sb), |v| match v {
+                    KValue::Number(KNumber::I64(i)) => i.to_string(),
+                    KValue::Number(KNumber::F64(f)) if f.is_nan() => "nan".into(),
+                    _ => "?".into(),
+                }),
+                format!("x = {}; x %= {}", sa, sb),
+            );
             if b >= 0 {
                 k.add(format!("pow {} {}", a, b), script_outcome(&format!("{} ^ {}", sa, sb), |v| as_i64(v).unwrap_or(-777).to_string()), format!("{} ^ {}", sa, sb));
             }
@@ -716,7 +724,16 @@ fn run_kernel_correspondence(cx: &mut Ctx) {
     };
     let mut k = KRun { reqs: vec![], impls: vec![], srcs: vec![] };
     gen_kernel_cases(&mut k, cx.thorough);
-    let resps = cx.drv.as_mut().unwrap().batch(&k.reqs);
+    // which repairs does the implementation contain? (status `fixed` of the finding ⇒ the model
+    // variant with that repair is the one to compare with)
+    let fixed = |id: &str| cx.known.iter().any(|f| f.id == id && f.status == "fixed");
+    let flags: String = ["F-C06-1", "F-C06-2", "F-C06-5", "F-C06-7", "F-C06-6", "F-C06-9", "F-C06-10", "F-C06-11"]
+        .iter()
+        .map(|id| if fixed(id) { '1' } else { '0' })
+        .collect();
+    cx.rep.extra.insert("model_repair_flags".into(), json!({"order": "rem hint range size shift abs expanded openIndex", "flags": flags}));
+    let wire: Vec<String> = k.reqs.iter().map(|r| format!("F{} {}", flags, r)).collect();
+    let resps = cx.drv.as_mut().unwrap().batch(&wire);
     let mut disagreements = 0u64;
     let mut by_kernel: BTreeMap<String, (u64, u64, u64)> = BTreeMap::new(); // (cases, model panics, impl panics)
     for i in 0..k.reqs.len() {
